@@ -348,7 +348,7 @@ static void kde(unsigned long long& unit)
 int main(int argc, char** argv)
 {
 	mc::init(argc, argv);
-	if(mc::ctx().replay) { printf("%s\n", mc::ctx().replay_case.c_str()); return 0; }
+	if(mc::ctx().replay) { printf("%s\n(no single-case replay for this part; use ./vcheck --replay <file>, which re-runs the enumeration for this key)\n", mc::ctx().replay_case.c_str()); return 0; }
 	silence();
 	mc::bound("rule", "complete products of parameter alphabets x argument grids per family; coherence oracles between the members of each pair (CDF difference = own 64-point Gauss-Legendre integral of the library's PDF with a 32-point self-check; discrete CDF = running sum of PMF), inverses, likelihood identities, KDE positivity and normalisation; a case is one (family, parameters, argument) evaluation");
 	unsigned long long unit = 0;
